@@ -527,6 +527,13 @@ func runCase(r *ev.Recorder, h hist) (c *ctl, err error) {
 	if err := c.drain(); err != nil {
 		return c, err
 	}
+	// one more roll-over with nobody waiting: the processor must get through whatever the
+	// case left behind (entries of expired requests) and arm the next window
+	if !c.abandoned && s.procArmed > 0 {
+		if err := c.doRoll(); err != nil {
+			return c, err
+		}
+	}
 	if c.def.lost > 0 {
 		c.classes["case_with_lost_handoff_schedule"]++
 	}
